@@ -826,12 +826,42 @@ def _complete(loops: list[ast.For]) -> bool:
     return bool(loops) and not any(isinstance(x, (ast.Break, ast.Return)) for l in loops for x in ast.walk(l))
 
 
+def _bool_outcome(f: Fact) -> tuple[ast.AST, bool] | None:
+    """What fact f says about the truth of a BOOLEAN-valued expression: (expression, its truth).  `X` / `not X` as tested, and the
+    spellings a `match` over the value (or a tuple holding it) desugars to: `X is True` / `X is False` / `X == True` / `X == False` and their
+    negations, the constant on either side.  Only to be used for expressions whose value is a bool (Future.done() / .cancelled()):
+    for those `X is not True` says exactly `not X`."""
+    if f.op == "truthy":
+        return f.left, f.pos
+    if f.op in ("is", "eq") and f.right is not None:
+        for e, k in ((f.left, f.right), (f.right, f.left)):
+            kv = const_value(strip_cast(k)) if isinstance(strip_cast(k), ast.Constant) else NOCONST
+            if isinstance(kv, bool) or (f.op == "eq" and isinstance(kv, int) and kv in (0, 1)):
+                return e, bool(kv) is f.pos
+    if f.op == "in" and f.pos and isinstance(f.right, (ast.Tuple, ast.List, ast.Set)) and f.right.elts:
+        ks = [const_value(x) if isinstance(x, ast.Constant) else NOCONST for x in f.right.elts]
+        if all(isinstance(k, bool) for k in ks) and len(set(ks)) == 1:
+            return f.left, ks[0]
+    return None
+
+
+def _state_call_fact(fi: FuncInfo, f: Fact, fut: ast.AST, attrs: tuple[str, ...]) -> bool | None:
+    """f is a fact about `<fut>.done()` (any method of attrs, no arguments), directly or through a single-assignment local holding the
+    call's result: the truth it gives the call; None when f is about something else"""
+    o = _bool_outcome(f)
+    if o is None:
+        return None
+    l = strip_cast(resolve(fi, o[0]))
+    if isinstance(l, ast.Call) and isinstance(l.func, ast.Attribute) and l.func.attr in attrs and not l.args and not l.keywords \
+            and _same_value(fi, l.func.value, fut):
+        return o[1]
+    return None
+
+
 def _only_done_guards(fi: FuncInfo, facts: list[Fact], fut: ast.AST) -> bool:
     """every condition on the way to the call only skips futures for which the call is a no-op (done / cancelled / None)"""
     for f in facts:
-        l = resolve(fi, f.left)
-        if f.op == "truthy" and not f.pos and isinstance(l, ast.Call) and isinstance(l.func, ast.Attribute) and l.func.attr in ("done", "cancelled") \
-                and _same_value(fi, l.func.value, fut) and not l.args:
+        if _state_call_fact(fi, f, fut, ("done", "cancelled")) is False:
             continue
         if f.op == "is" and not f.pos and _is_none(f.right) and _same_value(fi, f.left, fut):
             continue
@@ -1678,6 +1708,70 @@ def _new_properties(fi: FuncInfo) -> dict[str, tuple[str, ast.expr]]:
     return out
 
 
+_FUTURE_METHODS = ("cancel", "set_result", "set_exception")
+
+
+def _late_bind_collected_methods(node: ast.AST) -> bool:
+    """Early binding of a Future method into a collection that is then only called element by element:
+        steps = [f.cancel for f, _ in pairs]   /   [partial(f.cancel) for ..]   /   (f.cancel for ..)   /   list(f.cancel for ..)
+        for step in steps: step()
+    is read as the collection of the futures themselves with the method looked up at the call (`for step in steps: step.cancel()`).  A
+    bound method of a Future is the same callable whenever it is looked up, `partial(m)` without further arguments calls m with
+    exactly the arguments it is given, so the calls made - and their order - are the same.  Only when the local holding the
+    collection is assigned once, is used for nothing but `for <name> in <local>:` loops, and each loop variable is used for nothing
+    but being called."""
+    changed = False
+    stored: dict[str, int] = {}
+    for x in ast.walk(node):
+        if isinstance(x, ast.Name) and isinstance(x.ctx, (ast.Store, ast.Del)):
+            stored[x.id] = stored.get(x.id, 0) + 1
+    params = {a.arg for a in ast.walk(node) if isinstance(a, ast.arg)}
+
+    def comp_of(v):
+        v = strip_cast(v)
+        if isinstance(v, ast.Call) and chain(v.func) in ("list", "tuple") and len(v.args) == 1 and not v.keywords:
+            v = strip_cast(v.args[0])
+        return v if isinstance(v, (ast.ListComp, ast.GeneratorExp)) else None
+
+    def method_of(e):
+        e = strip_cast(e)
+        if isinstance(e, ast.Call) and _last(chain(e.func)) == "partial" and len(e.args) == 1 and not e.keywords and not isinstance(e.args[0], ast.Starred):
+            e = strip_cast(e.args[0])
+        return e if isinstance(e, ast.Attribute) and e.attr in _FUTURE_METHODS and isinstance(e.ctx, ast.Load) else None
+    for st in list(walk_no_nested(node)):
+        if not (isinstance(st, ast.Assign) and len(st.targets) == 1 and isinstance(st.targets[0], ast.Name)):
+            continue
+        xs = st.targets[0].id
+        comp = comp_of(st.value)
+        m = method_of(comp.elt) if comp is not None else None
+        if m is None or stored.get(xs) != 1 or xs in params:
+            continue
+        uses = [x for x in ast.walk(node) if isinstance(x, ast.Name) and x.id == xs and isinstance(x.ctx, ast.Load)]
+        loops = [l for l in walk_no_nested(node) if isinstance(l, ast.For) and isinstance(l.iter, ast.Name) and l.iter.id == xs and isinstance(l.target, ast.Name)]
+        if not uses or len(uses) != len(loops) or not all(any(u is l.iter for l in loops) for u in uses):
+            continue
+        ok, sites = True, []
+        for l in loops:
+            v = l.target.id
+            if stored.get(v) != 1 or v in params:
+                ok = False
+                break
+            for u in ast.walk(node):
+                if isinstance(u, ast.Name) and u.id == v and isinstance(u.ctx, ast.Load):
+                    par = parent(u)
+                    if isinstance(par, ast.Call) and par.func is u and any(a is l for a in ancestors(u)):
+                        sites.append(par)
+                    else:
+                        ok = False
+        if not ok or not sites:
+            continue
+        comp.elt = m.value
+        for c in sites:
+            c.func = ast.copy_location(ast.Attribute(c.func, m.attr, ast.Load()), c.func)
+        changed = True
+    return changed
+
+
 def _inline_properties(fi: FuncInfo, node: ast.AST) -> bool:
     """`x.<new property>` -> the expression the property returns, with its self replaced by x (x a plain name, so nothing is
     evaluated twice); names bound inside that expression (comprehension variables) are kept apart from the function's own"""
@@ -1763,6 +1857,45 @@ def _simple_value(e: ast.AST) -> bool:
     return isinstance(e, ast.Name)
 
 
+_BOOL_BUILTINS = ("bool", "isinstance", "issubclass", "callable", "hasattr", "any", "all")
+
+
+def _bool_test(e: ast.AST) -> ast.expr | None:
+    """e certainly evaluates to True or False: the test whose truth it is (`bool(x)` -> x); None when e may hold anything else"""
+    e0 = e
+    while isinstance(e0, ast.Call) and chain(e0.func) == "bool" and len(e0.args) == 1 and not e0.keywords and not isinstance(e0.args[0], ast.Starred):
+        return e0.args[0]
+    if isinstance(e, ast.UnaryOp) and isinstance(e.op, ast.Not):
+        return e
+    if isinstance(e, ast.Compare) and all(isinstance(o, (ast.Is, ast.IsNot, ast.In, ast.NotIn)) for o in e.ops):
+        return e
+    if isinstance(e, ast.Call) and chain(e.func) in _BOOL_BUILTINS and not any(isinstance(a, ast.Starred) for a in e.args):
+        return e
+    if isinstance(e, ast.BoolOp) and all(_bool_test(v) is not None for v in e.values):
+        return e
+    return None
+
+
+def _bool_choice(fi: FuncInfo, table, key, rest, e: ast.AST) -> ast.expr | None:
+    """`{True: A, False: B}[<bool>]` and `(B, A)[<bool>]` (a subscript, no default): the conditional expression `A if <test> else B`.
+    The subscript is a value that is certainly True or False, so exactly one of the two entries is picked and no KeyError /
+    IndexError can happen; the entries are plain values (evaluating both, as the display does, has no effect)."""
+    if rest is not e or key is None:
+        return None
+    t = _bool_test(key)
+    if t is None:
+        return None
+    a = b = None
+    if isinstance(table, ast.Dict) and len(table.keys) == 2 and all(isinstance(k, ast.Constant) and isinstance(k.value, bool) for k in table.keys) \
+            and table.keys[0].value != table.keys[1].value:
+        a, b = (table.values[0], table.values[1]) if table.keys[0].value is True else (table.values[1], table.values[0])
+    elif isinstance(table, (ast.Tuple, ast.List)) and len(table.elts) == 2 and not any(isinstance(x, ast.Starred) for x in table.elts):
+        b, a = table.elts
+    if a is None or not (_simple_value(a) and _simple_value(b)):
+        return None
+    return ast.fix_missing_locations(ast.copy_location(ast.IfExp(clone(t), clone(a), clone(b)), e))
+
+
 def _choice_of(fi: FuncInfo, e: ast.AST) -> ast.expr | None:
     """the conditional expression a lookup in a dict display with self-identifying keys stands for; None if e is no such lookup"""
     e = strip_cast(e)
@@ -1773,6 +1906,9 @@ def _choice_of(fi: FuncInfo, e: ast.AST) -> ast.expr | None:
             and not any(isinstance(a, ast.Starred) for a in e.args):
         table, key = strip_cast(resolve(fi, e.func.value)), e.args[0]
         rest = e.args[1] if len(e.args) == 2 else ast.Constant(None)
+    b = _bool_choice(fi, table, key, rest, e)
+    if b is not None:
+        return b
     if not (isinstance(table, ast.Dict) and table.keys and all(k is not None for k in table.keys) and isinstance(strip_cast(key), ast.Name)):
         return None
     ks = [_kconst(fi, k) for k in table.keys]
@@ -1896,7 +2032,8 @@ def _devirtualise(fi: FuncInfo, node: ast.AST) -> bool:
         def ok(v) -> bool:
             v = strip_cast(v)
             if isinstance(v, ast.IfExp):
-                return (in_place or stable(v.test)) and not any(isinstance(x, (ast.Call, ast.Await, ast.NamedExpr)) for x in ast.walk(v.test)) \
+                return (in_place or stable(v.test)) and not any(isinstance(x, (ast.Await, ast.NamedExpr)) or (isinstance(x, ast.Call) and not (
+                    in_place and chain(x.func) in _BOOL_BUILTINS + ("len",))) for x in ast.walk(v.test)) \
                     and ok(v.body) and ok(v.orelse)
             leaves[0] += 1
             return _simple_value(v)
@@ -2898,6 +3035,11 @@ def _build_view(ctx: Ctx, fi: FuncInfo) -> FuncInfo:
             changed = True
             ast.fix_missing_locations(node)
             set_parents(node)
+        if any(isinstance(x, ast.Attribute) and x.attr in _FUTURE_METHODS and not (isinstance(parent(x), ast.Call) and parent(x).func is x)
+               for x in walk_no_nested(node)) and _late_bind_collected_methods(node):
+            changed = True
+            ast.fix_missing_locations(node)
+            set_parents(node)
         if any(isinstance(x, ast.While) or (isinstance(x, ast.For) and isinstance(strip_cast(x.iter), ast.Call) and chain(strip_cast(x.iter).func) in ("range", "enumerate"))
                for x in walk_no_nested(node)) and _explicit_loops(fi, node):
             changed = True
@@ -3337,10 +3479,7 @@ def _same_value(fi: FuncInfo, a: ast.AST, b: ast.AST) -> bool:
 
 def _done_fact(fi: FuncInfo, f: Fact, fut: ast.AST) -> bool:
     """the fact `not <fut>.done()`"""
-    if not (f.op == "truthy" and not f.pos):
-        return False
-    l = resolve(fi, f.left)
-    return isinstance(l, ast.Call) and isinstance(l.func, ast.Attribute) and l.func.attr == "done" and not l.args and _same_value(fi, l.func.value, fut)
+    return _state_call_fact(fi, f, fut, ("done",)) is False
 
 
 def _callee_alts(fi: FuncInfo, f: ast.AST, depth: int = 4) -> list[ast.AST]:
@@ -3417,9 +3556,7 @@ def _cancel_sites(fi: FuncInfo) -> list[tuple[ast.Call, ast.AST]]:
 
 def _noop_edge(fi: FuncInfo, f: Fact, fut: ast.AST) -> bool:
     """the outcome f of a test says that cancelling `fut` would do nothing: it is done / cancelled already, or there is no future"""
-    l = resolve(fi, f.left)
-    if f.op == "truthy" and f.pos and isinstance(l, ast.Call) and isinstance(l.func, ast.Attribute) and l.func.attr in ("done", "cancelled") \
-            and not l.args and _same_value(fi, l.func.value, fut):
+    if _state_call_fact(fi, f, fut, ("done", "cancelled")) is True:
         return True
     if f.op == "is" and f.pos and _is_none(f.right) and _same_value(fi, f.left, fut):
         return True
@@ -3440,7 +3577,10 @@ def _nonempty_guard(fi: FuncInfo, f: Fact, loops: list[ast.AST]) -> bool:
     e = strip_cast(e)
     if isinstance(e, ast.Call) and chain(e.func) == "len" and len(e.args) == 1:
         e = e.args[0]
-    return any(_same_value(fi, e, q) for q in seqs)
+    # a mapping is empty exactly when its values() / items() / keys() are: `if table:` before `for c in table.values():`
+    views = [strip_cast(q).func.value for q in seqs if isinstance(strip_cast(q), ast.Call) and isinstance(strip_cast(q).func, ast.Attribute)
+             and strip_cast(q).func.attr in ("values", "items", "keys") and not strip_cast(q).args and not strip_cast(q).keywords]
+    return any(_same_value(fi, e, q) for q in seqs + views)
 
 
 def _cancels_each(ctx: Ctx, fi: FuncInfo, c: ast.Call, fut: ast.AST, loops: list[ast.AST], ignore=()) -> bool:
@@ -3590,12 +3730,44 @@ def _add_body(ctx: Ctx) -> tuple[FuncInfo, str, bool]:
     return m, q, _holds_lock(c)
 
 
+def _bool_only_field(fi: FuncInfo, attr: str) -> bool:
+    """every assignment to an attribute `.<attr>` anywhere in the file stores the constant True or False (closed world of a private flag of
+    the class): the field only ever holds a bool, so `flag is True` / `flag is not True` say the same as `flag` / `not flag`"""
+    seen = False
+    for n in ast.walk(fi.module.tree):
+        tgts = n.targets if isinstance(n, ast.Assign) else [n.target] if isinstance(n, (ast.AnnAssign, ast.AugAssign, ast.NamedExpr)) else \
+            [n.target] if isinstance(n, (ast.For, ast.AsyncFor, ast.comprehension)) else \
+            [i.optional_vars for i in n.items if i.optional_vars is not None] if isinstance(n, (ast.With, ast.AsyncWith)) else []
+        for t in tgts:
+            for x in ast.walk(t):
+                if isinstance(x, ast.Attribute) and x.attr == attr and isinstance(x.ctx, ast.Store):
+                    if not (isinstance(n, (ast.Assign, ast.AnnAssign)) and x is t and isinstance(getattr(n, "value", None), ast.Constant)
+                            and isinstance(n.value.value, bool)):
+                        return False
+                    seen = True
+        if isinstance(n, ast.Call) and chain(n.func) == "setattr":
+            return False
+    return seen
+
+
+def _flag_fact(fi: FuncInfo, f: Fact, attr: str, pos: bool) -> bool:
+    """f says that `self.<attr>` (read directly or held in a single-assignment local) is true (pos) / false (not pos): the plain test, and -
+    for a field that only ever holds a bool - the comparisons with True / False a `match` over the flag desugars to"""
+    if f.op == "truthy":
+        o = (f.left, f.pos)
+    else:
+        o = _bool_outcome(f)
+        if o is None or not _bool_only_field(fi, attr):
+            return False
+    return o[1] is pos and chain(strip_cast(resolve(fi, o[0]))) == f"self.{attr}"
+
+
 def rule_add(ctx: Ctx) -> None:
     fi, cache, outer_lock = _add_body(ctx)
     cfg = ctx.cfg(fi)
 
     def shut(f: Fact, pos: bool) -> bool:
-        return f.op == "truthy" and f.pos is pos and chain(resolve(fi, f.left)) == "self._shutdown"
+        return _flag_fact(fi, f, "_shutdown", pos)
 
     def locked(n) -> bool:
         return outer_lock or _holds_lock(n)
